@@ -253,9 +253,9 @@ def case_rate(case):
             errs.append(m.var / N * np.cos(np.array(g._cov_sample).T @ Tl).sum(axis=0) - Ctrue)
         rms[N] = float(np.sqrt((np.array(errs) ** 2).mean()))
     Ns = case["Ns"]
-    extra = {"cls": cfg["cls"], "dim": cfg["dim"], "sampling": cfg.get("sampling", "auto")}
+    extra = {"cls": cfg["cls"], "dim": cfg["dim"], "sampling": cfg.get("sampling", "auto"), "numerical_spectrum": cfg["cls"] not in {"Gaussian", "Exponential", "Matern", "Integral", "HyperSpherical", "JBessel", "TPLGaussian", "TPLExponential"}}
     for a, b in zip(Ns[:-1], Ns[1:]):
-        r.true("covariance error shrinks when the mode number grows (RMS(4N) <= 0.75 RMS(N))", rms[b] <= 0.75 * rms[a], info={"N": a, "rms": rms[a], "N4": b, "rms4": rms[b]}, **extra)
+        r.true("covariance error shrinks when the mode number grows (RMS(4N) <= 0.75 RMS(N))", rms[b] <= 0.75 * rms[a], info={"N": a, "rms": rms[a], "N4": b, "rms4": rms[b]}, N4=b, **extra)
     return r.done(outcome=[round(v, 5) for v in rms.values()])
 
 
